@@ -23,6 +23,7 @@ def genSafe (name : String) : Option Bool := lookup name SandboxGuards.natives
 def genCfg (native : String → Option Native) (hidden : String → String → Bool) : Cfg :=
   { guard := genGuard, callCheck := SandboxGuards.callCheck, fieldCheck := SandboxGuards.fieldCheck,
     refGetSandboxed := SandboxGuards.refGetSandboxed, initDictOff := SandboxGuards.initDictOff,
+    importSandboxed := SandboxGuards.importReadSandboxed,
     native := native, hidden := hidden }
 
 /-- The side-effect-free flag of every native the caller supplies is the one registered in the source. -/
